@@ -35,7 +35,10 @@ m = {
                  "kind_free_text": "home-made deductive verifier: AST -> symbolic execution against contracts -> SMT (z3 5.1, cvc5 fallback); native replay of counter-models"}],
     "checks": checks,
     "not_applicable": na,
-    "notes": "Exit 0 held / 1 violation (VIOLATION line) / 3 engine fault (never a verdict on rp2). Undecided obligations are printed and recorded in the evidence, never reported as violations.",
+    "notes": ("Exit 0 held / 1 violation (VIOLATION line) / 3 engine fault (never a verdict on rp2). Undecided obligations are printed and recorded in the evidence, never reported as "
+              "violations. A refuted postcondition / case / lemma / definite syntactic obligation is a violation (ending no-failing-input-found when no input can be replayed); a shape "
+              "obligation or an internal proof obligation (loop invariant, callee precondition, frame) that fails is a violation only together with a failing input from the solver model or "
+              "the bounded stand-in, otherwise undecided. Witnesses of repaired defects (findings/fixed) are replayed on every run. See DESIGN.md section 13."),
 }
 json.dump(m, open(os.path.join(os.path.dirname(__file__), "..", "MANIFEST.json"), "w"), indent=1)
 print(len(checks), "checks,", len(na), "not applicable")
